@@ -285,6 +285,19 @@ def plan_C18(seed, run, engine, tier="quick"):
         if rng.random() < 0.2 and ocls in ("Lasso", "ElasticNet", "WeightedLasso", "MCPRegression"):
             ops.append(dict(op="path", id=oid, data=len(datasets) - 1, container="F",
                             alphas=[float(oargs["alpha"] * f) for f in (2.0, 0.5)]))
+    if cls0 in ("Lasso", "WeightedLasso", "ElasticNet", "MCPRegression", "MultiTaskLasso") and rng.random() < 0.35:
+        # the judged object itself sweeps a path first, in half of the cases with keyword arguments
+        # for that sweep only (path(X, y, alphas, tol=..., max_iter=...))
+        ops.append(dict(op="new", id="e0", cls=cls0, args=args0))
+        kw = {}
+        if rng.random() < 0.6:
+            kw = choice(rng, [dict(max_iter=1), dict(tol=0.1), dict(max_iter=2, tol=1e-2), dict(p0=1)])
+        a0 = args0["alpha"]
+        ops.append(dict(op="path", id="e0", data=0, container=choice(rng, ["F", "csc"]),
+                        alphas=[float(a0 * f) for f in (2.0, 0.7, 0.2)], kwargs=kw))
+        ops.append(dict(op="fit", id="e0", data=0, container=cont0, judge=False, labels=_labels(rng, ds0["kind"]),
+                        fresh_compare=True))
+        return _mk("C18", seed, run, engine, datasets, ops, rng)
     # a second object with *the same* class and hyper-parameters (state keyed by hyper-parameter
     # values, e.g. a cache of configured instances, only leaks between equal configurations):
     # it sweeps a path (which rewrites alpha on its compiled penalty) or is fitted on other data
